@@ -337,12 +337,14 @@ def run_cases(seed, lo, hi, extra):
         # ---- oracles
         # C01 / C13 round trip
         ign = tuple(opts.get("ignored_attrs", []))
+        # with ignored attributes the round trip is the third clause of C13 (C01 quantifies over ignored_attrs=[] only)
+        rt = "C13" if ign else "C01"
         if p[0] != "ok":
-            st.failures.append({"prop": "C01", "sig": f"C01/patch-raises/{p[2]}", **desc})
+            st.failures.append({"prop": rt, "sig": f"{rt}/patch-raises/{p[2]}", **desc})
         else:
             d = xt.doc_eq(p[1], R, ignored=ign)
             if d:
-                st.failures.append({"prop": "C01", "sig": "C01/patched-differs-from-right", "detail": d, **desc})
+                st.failures.append({"prop": rt, "sig": f"{rt}/patched-differs-from-right", "detail": d, **desc})
         # C03 emptiness
         eq = xt.doc_eq(L, R, ignored=ign) is None
         if eq and script:
